@@ -7,7 +7,7 @@ from wcommon import *
 LINK_ERR = {1, 2, 3, 4, 5, 6, 7, 8, 20, 21}
 EVENT_NAMES = {0: "instantiate-class", 1: "call-result", 2: "snapshot-globals", 3: "snapshot-memory", 4: "snapshot-pages"}
 # deviations from the specification that are open findings (each has its own sig); they do not explain a model mismatch
-DEVIATIONS = ("memory-import-max-vs-unbounded", "elem-oob-ignored", "note-stricter")
+DEVIATIONS = ("memory-import-max-vs-unbounded", "elem-oob-ignored")
 
 
 def coq_actions(c, obs, ci=None):
@@ -127,7 +127,10 @@ def oracle(c, eng, obs):
                 else:
                     yield ("accepts-spec-rejects", {"extern": im["kind"]}, "step %d: import %s accepted, extern_match rejects it" % (si, im), si)
             if not accepted and not bad:
-                yield ("note-stricter", {}, "step %d: class %d although every import matches (%s)" % (si, code, o.get("err")), si)
+                # The "only if" wording tolerates a stricter linker, and the one documented case (table minimum judged against
+                # the declared minimum instead of the current length) cannot arise here: generated tables never grow. Every
+                # other rejection of a link whose imports all match is a defect (e.g. a confused function type).
+                yield ("rejects-valid-link", {"class": code}, "step %d: class %d although every import matches its export (%s)" % (si, code, o.get("err")), si)
             if code == 0:
                 live.add(st["n"])
                 continue
@@ -232,12 +235,9 @@ def run(tier, seed):
             txt, idx = coq_actions(c, obs, ci)
             items.append(txt); owner.append((ci, eng, idx)); defs.append(coq_mod_defs(c, ci))
             for kind, extra, text, si in oracle(c, eng, obs):
-                if kind == "note-stricter":
-                    dist["stricter_than_spec"] += 1
-                    if dist["stricter_than_spec"] <= 2: ck.note("stricter than the specification (allowed by 'only if'): " + text)
-                    continue
                 sig = dict(kind=kind, **extra)
-                if kind in ("shared-object", "failed-instantiation-frame", "unusable-after", "accepts-spec-rejects", "init-not-current"): sig["engine"] = eng
+                if kind == "rejects-valid-link": dist["stricter_than_spec"] += 1
+                if kind in ("rejects-valid-link", "shared-object", "failed-instantiation-frame", "unusable-after", "accepts-spec-rejects", "init-not-current"): sig["engine"] = eng
                 viol(kind, sig, c, eng, si, {"oracle": text})
         d = engines_differ(c)
         if d:
@@ -265,7 +265,7 @@ def run(tier, seed):
     ck.dist = dist
     ck.samples = [dict(id=c["id"], witness=c.get("witness"), mods=[dict(n=m["n"], fault=m["fault"], imports=[(i["kind"], i["variant"]) for i in m["imports"]]) for m in c["mods"]],
                        steps=[(s["k"], s["n"], s.get("role")) for s in c["steps"][:12]]) for c in cases[:6]]
-    ck.extra["rule"] = ("generated graphs (exporter, 1-2 importers each optionally preceded by a faulty variant, plus 6 fixed witnesses) x interleaved calls/probes/snapshots x both engines; "
+    ck.extra["rule"] = ("generated graphs (exporter, 1-2 importers each optionally preceded by a faulty variant, plus 7 fixed witnesses) x interleaved calls/probes/snapshots x both engines; "
                         "every engine history is replayed through Rt/Linking.v instantiate + W (coq/Rt/LinkCheck.v: instantiation class vs code_accept AND vs extern_match, call results, "
                         "per-instance globals/memory/pages) and judged by the Python oracle (spec import predicate, write-here/read-there probes, captured initial values, "
                         "frame of failed instantiations, engine agreement); non-trivial = at least two probes ran across live instances")
